@@ -16,12 +16,22 @@ fn gen(t: &mut Tape, _tier: Tier) -> Scenario {
     // 0 over-long valid (completion latch), 1 corrupt (failure latch), 2 valid,
     // 3 fatal error in the header phase (invalid properties byte), possibly
     //   followed by a complete valid stream
-    let kind = t.below(4);
-    let b = gen_lzma(t, if kind == 0 { 2 } else { 0 }, 2500);
+    // 4 "lying size": a size in effect that is smaller than what the stream holds,
+    //   typically falling inside a match — completion happens by overshooting
+    let kind = t.below(5);
+    let b = gen_lzma(t, if kind == 0 || kind == 4 { 2 } else { 0 }, 2500);
     opts.mode = t.below(3);
-    let size = if b.marker { None } else { Some(b.expect.len() as u64) };
+    let mut size = if b.marker { None } else { Some(b.expect.len() as u64) };
+    let mut lying: Option<(u64, u64)> = None; // (declared size, input offset of completion within the payload)
+    if kind == 4 && b.expect.len() >= 2 {
+        let n = t.range(1, b.expect.len() as u64 - 1);
+        if let Some(r) = b.trace.iter().find(|r| r.produced as u64 >= n) {
+            lying = Some((n, r.consumed as u64));
+            size = Some(n);
+        }
+    }
     let mut input = match opts.mode {
-        0 => b.std_file(),
+        0 => b.file(Some(size.unwrap_or(u64::MAX))),
         1 => {
             opts.provided = size;
             b.file(Some(t.u64()))
@@ -44,6 +54,12 @@ fn gen(t: &mut Tape, _tier: Tier) -> Scenario {
         sc.set_i("payload_end", payload_end as u64);
         sc.set_b("expect", b.expect.clone());
         note = format!("over-long: valid size-bounded stream of {} bytes + {} more", payload_end, input.len() - payload_end);
+    } else if let Some((n, c)) = lying {
+        let hl = opts.header_len() as u64;
+        sc.set_i("payload_end", hl + c);
+        sc.set_i("lying", 1);
+        sc.set_b("expect", b.expect.clone());
+        note = format!("size in effect {} of {} (inside the stream): completion after {} input bytes", n, b.expect.len(), hl + c);
     } else if kind == 1 {
         let m = mutate(t, &mut input);
         note = format!("mutation: {}", m);
@@ -196,6 +212,15 @@ fn exec(sc: &Scenario, ctx: &mut Ctx) -> Vec<Violation> {
         }
         if complete_at.is_some() {
             ctx.stats.hit("probe.history_continues_after_completion");
+        }
+        if sc.i("lying") == 1 {
+            if complete_at.is_some() {
+                ctx.stats.hit("probe.completion_by_overshooting_a_lying_size");
+            }
+            if s.first_bad.is_some() {
+                return mk("output_not_prefix", format!("sink byte {:?} is not what the stream decodes to", s.first_bad));
+            }
+            return Vec::new();
         }
         if complete_at.is_none() {
             // the history never fed the whole payload: nothing to latch
